@@ -51,6 +51,7 @@ pub fn bounds(tier: Tier) -> Vec<ConvBound> {
             mk(Fam::Txt, 0, &two, 4, 2, true, true),
             mk(Fam::Txt, 0, &two, 5, 0, false, false),
             mk(Fam::Txt, 0, &three, 3, 1, true, true),
+            mk(Fam::Txt, 0, &three, 4, 0, false, true),
             mk(Fam::Txt, 1, &two, 3, 2, true, true),
             mk(Fam::Map, 1, &two, 4, 1, true, true),
             mk(Fam::Map, 0, &three, 4, 0, false, true),
